@@ -117,6 +117,10 @@ FAIL_PROGRAMS = [
     ("parse-error", "def 0 {\n    a(;\n}\n"),
     ("compile-error", "def 0 {\n    break;\n}\n"),
     ("unknown-macro", "def 0 {\n    ~m();\n}\n"),
+    # routine ids that skip a number: the library and the command must agree (both reject; before /repo fix 21 compile() accepted
+    # the program and the command crashed on the routine info that does not exist)
+    ("routine-id-gap", "def 0 {\n    a();\n}\ndef 2 {\n    b();\n}\n"),
+    ("routine-id-gap-coroutines", "def 0 {\n    a();\n}\ncoro C1 {\n    b();\n}\ndef 4 {\n    c();\n}\n"),
 ]
 
 RET = {"opcode": "Return", "params": []}
